@@ -54,7 +54,7 @@ def int_table(ctx: Ctx, h: Harness, thorough: bool):
     widths = list(range(1, 66)) + [72, 96, 128] if thorough else [1, 2, 3, 7, 8, 9, 12, 15, 16, 17, 24, 31, 32, 33, 48, 63, 64, 65]
     offsets = range(8) if thorough else (0, 3, 7)
     n = 0
-    for enc in ("unsigned", "signed", "twosComplement"):
+    for enc in ("unsigned", "signed", "twosComplement", "twosCompliment"):
         for order in ("mostSignificantByteFirst", "leastSignificantByteFirst"):
             site = f"{fi.key}::{enc}::{order}"
             bad = None
@@ -94,6 +94,34 @@ def int_table(ctx: Ctx, h: Harness, thorough: bool):
                 continue
             ctx.decide(bad is None, "R4.int", site, "", bad or "", where=where(fi, fi.node))
     ctx.stats["int_cases"] = n
+    # "uncalibrated integers are returned as integer values": calibrators that are declared but do not apply to this packet
+    site = f"{fi.key}::context calibrators that do not match"
+    try:
+        bad = None
+        cal = "calibrators.PolynomialCalibrator([calibrators.PolynomialCoefficient(2.0, 1)])"
+        for w, bits in ((16, "1000000000000001"), (64, "1" + "0" * 62 + "1")):
+            e = h.ev(f"IntegerDataEncoding(w, 'unsigned', context_calibrators=[calibrators.ContextCalibrator("
+                     f"[comparisons.Comparison('1', 'MODE')], {cal})])", ENC, w=w)
+            for mode, calibrated in ((0, False), (1, True)):
+                pkt = h.packet(pack_bits(bits), {"MODE": h.val("Int", mode)})
+                kind, got = h.outcome("e.parse_value(pkt)", ENC, e=e, pkt=pkt)
+                raw = int(bits, 2)
+                if calibrated:
+                    ok = kind == "ok" and isinstance(got, float) and got == 2.0 * raw and got.attrs.get("raw_value") == raw
+                    want = f"{2.0 * raw!r} as FloatParameter with raw value {raw}"
+                else:
+                    ok = kind == "ok" and isinstance(got, int) and not isinstance(got, bool) and got == raw and \
+                        getattr(got, "cls", "") == "IntParameter" and got.attrs.get("raw_value") == raw
+                    want = f"{raw} as IntParameter (no calibrator applies)"
+                if not ok:
+                    bad = (f"{w}-bit unsigned integer with a context calibrator for MODE==1, packet has MODE={mode}: "
+                           f"{'raises ' + str(got) if kind != 'ok' else repr(got) + ' (' + str(getattr(got, 'cls', type(got).__name__)) + ')'}; expected {want}")
+                    break
+            if bad:
+                break
+        ctx.decide(bad is None, "R4.int", site, "", bad or "", where=where(fi, fi.node))
+    except Unsupported as e2:
+        ctx.unknown("R4.int", site, str(e2))
 
 
 def mil1750a(bits32: str) -> float:
